@@ -25,7 +25,7 @@ package lexer
 // ghost: byte offset at which the current token began (set by tokenBegins)
 //@ ghost field Lexer.startPos int
 
-//@ pred LexInv(l *Lexer) = l.pos >= 0 && l.readPos == l.pos+1 && int(l.char) == byteAt(l.input, l.pos)
+//@ pred LexInv(l *Lexer) = l.pos >= 0 && l.pos <= len(l.input) && l.readPos == l.pos+1 && int(l.char) == byteAt(l.input, l.pos)
 //@      && int(l.line) == lineOf(l.input, l.pos) && int(l.col) == colOf(l.input, l.pos)
 //@      && l.shouldResetCol == (l.char == '\n')
 //@      && (l.pos > 0 ==> int(l.prevLine) == lineOf(l.input, l.pos-1) && int(l.prevCol) == colOf(l.input, l.pos-1))
@@ -77,7 +77,7 @@ package lexer
 //@   modifies nothing
 
 //@ func (l *Lexer) readChar
-//@   requires LexInv(l) || LexInit(l)
+//@   requires (LexInv(l) && l.pos < len(l.input)) || LexInit(l)
 //@   use posStep(l.input, l.pos)
 //@   use posBase(l.input)
 //@   ensures old(LexInv(l)) ==> LexInv(l) && l.pos == old(l.pos)+1
@@ -96,7 +96,7 @@ package lexer
 //@   modifies nothing
 
 //@ func (l *Lexer) bracesToken
-//@   requires LexInv(l) && textIs(literal, l.input, l.pos, l.pos+2)
+//@   requires LexInv(l) && textIs(literal, l.input, l.pos, l.pos+2) && l.pos+2 <= len(l.input)
 //@   ensures textIs(result.Literal, l.input, old(l.pos), l.pos)
 //@   ensures Advance(l, old(l.pos), result, 2) && result.Type == tok && result.Literal == literal
 //@   ensures l.isHTML == (tok != token.LBRACES)
@@ -104,7 +104,9 @@ package lexer
 
 //@ func (l *Lexer) illegalToken
 //@   requires LexInv(l)
-//@   ensures Advance(l, old(l.pos), result, 1) && result.Type == token.ILLEGAL
+//@   ensures result.Type == token.ILLEGAL
+//@   ensures old(l.char) != 0 ==> Advance(l, old(l.pos), result, 1)
+//@   ensures old(l.char) == 0 ==> LexInv(l) && l.pos == old(l.pos) && l.startPos == old(l.startPos) && TokSpan(l, result)
 //@   modifies @POS, @START
 
 //@ func (l *Lexer) incrementToken
@@ -186,8 +188,9 @@ package lexer
 
 //@ func (l *Lexer) readString
 //@   requires LexInv(l) && l.char != 0
-//@   goal terminated: byteAt(l.input, l.pos-1) == old(int(l.char)) && l.pos <= len(l.input)
-//@   ensures LexInv(l) && l.pos > old(l.pos)+1 && l.startPos == old(l.pos)
+//@   goal terminated: result1 ==> byteAt(l.input, l.pos-1) == old(int(l.char)) && l.pos <= len(l.input) && l.pos > old(l.pos)+1
+//@   goal unterminated-is-reported: !result1 ==> l.char == 0 && l.pos <= len(l.input)
+//@   ensures LexInv(l) && l.pos > old(l.pos) && l.startPos == old(l.pos)
 //@   modifies @POS, @START
 //@   loop 0: invariant LexInv(l) && l.startPos == old(l.pos) && l.pos > old(l.pos) && l.pos <= len(l.input)
 //@   loop 0: invariant pos == old(l.pos)+1
@@ -205,7 +208,7 @@ package lexer
 //@   loop 0: decreases len(l.input) - l.pos
 
 //@ func (l *Lexer) directiveToken
-//@   requires LexInv(l)
+//@   requires LexInv(l) && l.char == '@'
 //@   ensures LexInv(l) && l.pos > old(l.pos) && l.startPos >= old(l.pos) && l.startPos < l.pos && TokSpan(l, result)
 //@   ensures live(result.Type) ==> l.startPos == old(l.pos)
 //@   ensures result.Type == token.ILLEGAL || isDirectiveType(result.Type)
@@ -230,7 +233,7 @@ package lexer
 
 //@ func (l *Lexer) skipComment
 //@   requires LexInv(l)
-//@   ensures LexInv(l) && l.pos >= old(l.pos)+2 && l.isHTML
+//@   ensures LexInv(l) && l.pos >= old(l.pos) && l.isHTML
 //@   modifies @POS, l.isHTML
 //@   loop 0: invariant LexInv(l) && l.pos >= old(l.pos)
 //@   loop 0: decreases len(l.input) - l.pos
@@ -240,6 +243,7 @@ package lexer
 //@   use dirKeyDef(l.input, l.pos)
 //@   ensures result0 == (dirKeyAt(l.input, l.pos) && byteAt(l.input, l.pos-1) != '\\')
 //@   ensures result1 == (dirKeyAt(l.input, l.pos) && byteAt(l.input, l.pos-1) == '\\')
+//@   ensures result0 || result1 ==> l.char == '@'
 //@   modifies nothing
 //@   loop 0: invariant pos == l.pos && i >= 1 && l.char == '@'
 //@   loop 0: invariant allkeys(token.directives, d, len(d) < i ==> !matchAt(l.input, pos, d))
